@@ -1217,9 +1217,20 @@ std::vector<double> TasmanianSparseGrid::getHierarchicalSupport() const{
     std::vector<double> support = (empty()) ? std::vector<double>() : base->getSupport();
 
     if (!domain_transform_a.empty()){
+        // the Jacobian of the canonical-to-transformed map of the rule family, see mapCanonicalToTransformed()
         std::vector<double> correction(domain_transform_a.size());
-        std::transform(domain_transform_a.begin(), domain_transform_a.end(), domain_transform_b.begin(),
-                       correction.begin(), [](double a, double b)->double{ return 0.5 * (b - a); });
+        TypeOneDRule rule = base->getRule();
+        if ((rule == rule_gausslaguerre) || (rule == rule_gausslaguerreodd)){
+            std::transform(domain_transform_b.begin(), domain_transform_b.end(), correction.begin(), [](double b)->double{ return 1.0 / b; });
+        }else if ((rule == rule_gausshermite) || (rule == rule_gausshermiteodd)){
+            std::transform(domain_transform_b.begin(), domain_transform_b.end(), correction.begin(), [](double b)->double{ return 1.0 / std::sqrt(b); });
+        }else if (rule == rule_fourier){
+            std::transform(domain_transform_a.begin(), domain_transform_a.end(), domain_transform_b.begin(),
+                           correction.begin(), [](double a, double b)->double{ return b - a; });
+        }else{
+            std::transform(domain_transform_a.begin(), domain_transform_a.end(), domain_transform_b.begin(),
+                           correction.begin(), [](double a, double b)->double{ return 0.5 * (b - a); });
+        }
 
         for(auto is = support.begin(); is < support.end(); ){
             for(auto c : correction) *is++ *= c;
